@@ -450,6 +450,11 @@ func runEngine(r *ev.Run, id caseID) {
 		resp, err := e.Txn(ctx, req)
 		cancel()
 		if err != nil {
+			if oversize(req) {
+				// a key / range end above the documented limit is refused (C16's subject)
+				r.Count("engine_txns_refused_for_oversize_key", 1)
+				continue
+			}
 			w.At = d
 			r.Violation("engine-txn-error", err.Error()+" @ "+d, w)
 			return
@@ -485,4 +490,40 @@ func runEngine(r *ev.Run, id caseID) {
 	}
 	r.Eval(1)
 	r.Sample(map[string]any{"kind": "engine", "txns": head(w.Commands, 4)})
+}
+
+// oversize tells whether any key or range end of the transaction exceeds the accepted key length.
+func oversize(req *pb.TxnRequest) bool {
+	big := func(b ...[]byte) bool {
+		for _, x := range b {
+			if len(x) > 1024 {
+				return true
+			}
+		}
+		return false
+	}
+	for _, c := range req.Compare {
+		if big(c.Key, c.RangeEnd) {
+			return true
+		}
+	}
+	for _, ops := range [][]*pb.RequestOp{req.Success, req.Failure} {
+		for _, op := range ops {
+			switch o := op.Request.(type) {
+			case *pb.RequestOp_RequestRange:
+				if big(o.RequestRange.Key, o.RequestRange.RangeEnd) {
+					return true
+				}
+			case *pb.RequestOp_RequestPut:
+				if big(o.RequestPut.Key) {
+					return true
+				}
+			case *pb.RequestOp_RequestDeleteRange:
+				if big(o.RequestDeleteRange.Key, o.RequestDeleteRange.RangeEnd) {
+					return true
+				}
+			}
+		}
+	}
+	return false
 }
